@@ -1,6 +1,6 @@
 (* C07 — processing is idempotent: a second run changes and reports nothing.
    Property theorems only: each is closed by `exact <lemma>`. *)
-From AD Require Import Bytes Outcome Gen Gzip GzipProofs Ar ArSpec ArProofs ArIdem PycHeader PycHeaderProofs Date Zip ZipProofs Fs Helper HelperProofs Idem.
+From AD Require Import Bytes Outcome Gen Gzip GzipProofs Ar ArSpec ArProofs ArIdem PycHeader PycHeaderProofs Date Zip ZipProofs ZipRoundTrip Fs Helper HelperProofs Idem.
 
 (* byte level: the handler finds nothing to change in its own output *)
 Theorem C07_gzip : forall epoch x y hm,
@@ -18,6 +18,18 @@ Proof. exact zero_mtime_idempotent. Qed.
 Theorem C07_zip_members_settled : forall epoch d t o, (dos_min <= epoch <= dos_max)%Z -> dos_of_unix epoch = Some (d, t) ->
   snd (clamp_member epoch (d, t) (fst (clamp_member epoch (d, t) o))) = false.
 Proof. exact clamp_member_settled. Qed.
+
+(* zip/jar: a second pass over an archive written by the handler whose members are settled (not later than
+   the epoch - which C07_zip_members_settled gives for the output of a first pass) reports nothing, whatever
+   the file's own mtime: nothing is newer and the re-created archive has the same length *)
+Theorem C07_zip_second_pass : forall init mt l,
+  Forall wf_zout l -> N.of_nat (length l) < 65535 ->
+  N.of_nat (length (locals_of l)) < 4294967295 -> N.of_nat (length (central_of l)) < 4294967296 ->
+  no_locator (zip_write l) ->
+  Forall (fun o => is_ascii (zo_name o) = false -> utf8_ok (zo_name o) = true) l ->
+  Forall (settled (fst init) (snd init)) l ->
+  exists y', zip_process init mt (zip_write l) = Some (Ok (y', false)).
+Proof. exact zip_second_pass. Qed.
 
 (* file level, any handler whose byte-level function finds nothing to change in its own output:
    a fault-free run that replaced the file is followed by a run that reports Noop ... *)
@@ -42,5 +54,6 @@ Print Assumptions C07_gzip.
 Print Assumptions C07_ar.
 Print Assumptions C07_pyc_zero_mtime.
 Print Assumptions C07_zip_members_settled.
+Print Assumptions C07_zip_second_pass.
 Print Assumptions C07_second_run_noop.
 Print Assumptions C07_noop_untouched.
